@@ -49,7 +49,8 @@ def plan(tier, seed):
             G = "none"
             if Akind in ("fftdiag", "fft"):   # box constraints are only defined for real data
                 Akind = "diag"
-        P.add("lls", n=int(rng.integers(2, 8)), A=Akind,
+        P.add("lls", n=int(rng.integers(2, 8)) if i % 10 != 9 else int(rng.integers(16, 33)),
+              A=Akind,
               cplx=bool(proxg != "box" and rng.random() < 0.5),
               lam=pick(rng, [0.0, 0.0, "pos"]), z=bool(rng.random() < 0.5), proxg=proxg, G=G,
               solver=pick(rng, SOLVERS), P=bool(rng.random() < 0.3),
